@@ -336,14 +336,25 @@ pub fn run(tier: &str) -> i32 {
     let th = rep.thorough();
     let ins = inputs();
     let long = corpus::shape_named("long:T70000", &[(crate::gen::Seg::T, 70000)]);
+    // incompressible inputs whose last byte is the one that makes the compressor cut a block by
+    // itself (31 KiB + 1, and twice that): the end of the input and an internal block boundary coincide
+    let edge: Vec<corpus::Input> = vec![
+        corpus::shape_named("long:R31745", &[(crate::gen::Seg::R, 31745)]),
+        corpus::shape_named("long:R63490", &[(crate::gen::Seg::R, 63490)]),
+        corpus::shape_named("long:R31744", &[(crate::gen::Seg::R, 31744)]),
+    ];
     let cf = cfgs();
     let depth = if th { 4 } else { 3 };
     // work items: (input, cfg, first action) so one exploration is split 60 ways
     let nact = FLUSHES.len() * CHUNKS.len() * ROOMS.len() + 1;
     let mut items: Vec<(usize, usize, usize)> = vec![];
-    for i in 0..=ins.len() {
+    for i in 0..=ins.len() + edge.len() {
         for c in 0..cf.len() {
             if i == ins.len() && c > 1 {
+                continue;
+            }
+            // edge inputs: levels 6 (zlib), 0 (zlib) and 9/Fixed (raw)
+            if i > ins.len() && c == 1 {
                 continue;
             }
             for a in 0..nact {
@@ -356,7 +367,14 @@ pub fn run(tier: &str) -> i32 {
         watchdog::tick(ix as u64, 0);
         // quick: full depth on a diagonal of (input, configuration) pairs, one level less elsewhere
         let deep = th || (i + c) % 4 == 0;
-        let (name, data, d) = if i < ins.len() { (ins[i].0.as_str(), &ins[i].1[..], if deep { depth } else { depth - 1 }) } else { (long.name.as_str(), &long.data[..], 2) };
+        let (name, data, d) = if i < ins.len() {
+            (ins[i].0.as_str(), &ins[i].1[..], if deep { depth } else { depth - 1 })
+        } else if i == ins.len() {
+            (long.name.as_str(), &long.data[..], 2)
+        } else {
+            let e = &edge[i - ins.len() - 1];
+            (e.name.as_str(), &e.data[..], 2)
+        };
         let m = DefModel { input: data, name, cfg: cf[c], rep: &rep, cov: Mutex::new(BTreeMap::new()), check_side_effects: true };
         let mut all = vec![];
         m.actions(&m.init(), &mut all);
